@@ -125,8 +125,10 @@ def gen_transfer(rng, cfg, types, nsubs=1, reenter=False, maxsize=40,
             spec['offset'] = wchoice(rng, [(0, 2), (rng.randint(1, 9), 2)])
         if spec['src'] == 'nonseekable':
             spec['short_src'] = rng.random() < 0.25
-            if rng.random() < provide_prob:
-                provide = size
+        if rng.random() < provide_prob:
+            # (a subscriber may announce the size for any source kind; for a
+            # seekable stream that is the size from its current position)
+            provide = size
     elif ty == 'download':
         spec['dst'] = wchoice(rng, [('path', 4), ('seekable', 2), ('nonseekable', 3),
                                     ('fifo', 1)])
@@ -149,7 +151,7 @@ def gen_transfer(rng, cfg, types, nsubs=1, reenter=False, maxsize=40,
             spec['_reenter_set_exception'] = True
         if r['call'] == 'cancel':
             spec['_reenter_cancel'] = True
-    if ty == 'upload' and rng.random() < 0.25:
+    if ty in ('upload', 'copy') and rng.random() < 0.25:
         spec['extra_args'] = {'ChecksumAlgorithm': 'CRC32'}
     return spec
 
@@ -277,7 +279,7 @@ def gen_fatal_fault(rng, tidx, spec, cfg, kinds=None):
         if spec['dst'] == 'path':
             return [{'site': 'fs', 'op': 'write', 'dest': '/d/down%d' % tidx,
                      'nth': rng.randint(0, 3), 'exc': 'oserror',
-                     'short': rng.random() < 0.5}]
+                     'short': rng.random() < 0.5, 'sticky': rng.random() < 0.35}]
         return [{'site': 'fs', 'op': 'write', 'path': '/d/fifo%d' % tidx,
                  'nth': rng.randint(0, 3), 'exc': wexc}]
     if k == 'fs':
@@ -286,6 +288,7 @@ def gen_fatal_fault(rng, tidx, spec, cfg, kinds=None):
         if op == 'write':
             f['nth'] = rng.randint(0, 3)
             f['short'] = rng.random() < 0.5
+            f['sticky'] = rng.random() < 0.35
         if op == 'open':
             f['mode'] = 'w'
         return [f]
@@ -304,10 +307,19 @@ def gen_stream_retries(rng, tidx, spec, cfg, max_per_range=None):
             continue
         n = rng.randint(1, budget)
         L = range_len(spec['size'], cfg, r)
+        calls = streams = 0
         for a in range(n):
-            out.append({'site': 'stream', 'key': 'o%d' % tidx, 'range': r,
-                        'attempt': a, 'at': rng.randint(0, max(0, L)),
-                        'exc': rng.choice(RETRYABLE)})
+            if rng.random() < 0.25:
+                # the GetObject call itself fails with a retryable error
+                out.append({'site': 's3', 'op': 'get_object', 'key': 'o%d' % tidx,
+                            'range': r, 'nth': calls, 'when': 'before',
+                            'exc': rng.choice(['conn', 'timeout', 'readtimeout'])})
+            else:
+                out.append({'site': 'stream', 'key': 'o%d' % tidx, 'range': r,
+                            'attempt': streams, 'at': rng.randint(0, max(0, L)),
+                            'exc': rng.choice(RETRYABLE)})
+                streams += 1
+            calls += 1
     return out
 
 
